@@ -379,7 +379,7 @@ func lookup(m map[string]map[uint16]string, client string, id uint16) (string, b
 
 func TestC26(t *testing.T) {
 	vf.Check(t, vf.Prop[c26Case]{
-		ID: "C26", Name: "interop", Bubble: true,
+		ID: "C26", Name: "interop", Bubble: true, DeadlockIsViolation: true,
 		Rule: "real client and real gateway session over a lossless in-memory link with a conforming model broker (which also plays other clients); auth on/off, will on/off; scripts of 3-25 steps: Register, Subscribe (plain, wildcard, short, predefined; QoS 0-2; a fifth of the subscriptions to filters not subscribed yet are refused by the broker), Publish / PublishPredefined (QoS -1..2, short / predefined / registered topics, retain), Unsubscribe, Ping, Sleep (0.5-4 s; a blocking call during which broker publishes are injected), further Sleeps from the awake state, Connect back to active, Disconnect; broker injections of single messages and bursts of 2-5 back-to-back messages on known, predefined, short and not-yet-registered topics under a wildcard (the same new topic several times in a burst, and different ones). Non-trivial = a script with a sleep cycle, a burst on an unregistered topic, or >= 3 different API kinds; distinct by case.",
 		Assumptions: []string{"Publish to a plain name is preceded by Register/Subscribe of that name (the API documents the precondition); after Sleep returns the script continues with Sleep, Connect or nothing (the client is 'awake', not active)",
 			"sleeps stay below RetryDelay so that the C11 known finding (retransmission copies in the wake-up flush) does not interfere",
